@@ -5,9 +5,8 @@
   `_assign_utility`, `_maximise_utility_duty` (tied to the code on 1500+ synthetic profiles × utility
   ladders per run by harness/opv/props/c03model.py).  Proved for all profiles and ladders: duties
   are non-negative, never exceed the profile, unreachable utilities get nothing, and — on the
-  heating side — a ladder that ends with a utility lying wholly beyond the segment (what the default
-  hot utility is) closes the allocation within `tol` (`covering_ladder_closes_hot`; the cooling
-  side is the mirror image and is not proved separately: it is decided by the oracle).
+  either side — a ladder that ends with a utility lying wholly beyond the segment (what the default
+  utilities are) closes the allocation within `tol` (`covering_ladder_closes_hot` / `_cold`).
   The unconditional statement "the duties always sum to Qh / Qc" is false of the code (known
   finding C03-cold-sufficiency-sign) and is not claimed as a theorem.
 -/
@@ -79,6 +78,17 @@ theorem covering_ladder_closes_hot (tol : Rat) (htol : 0 ≤ tol) (T H : List Ra
     limit - tol ≤ (assignLoop tol T H true limit 0 (pre ++ [uc])).sum ∧
     (assignLoop tol T H true limit 0 (pre ++ [uc])).sum ≤ limit := by
   have := assignLoop_closes_hot tol htol T H uc limit hcov hlen hmono hhead hlast pre 0 h0
+  simpa using this
+
+/-- **… and likewise on the cooling side**: non-decreasing profile (read downwards) ending at
+    `limit = Qc`, last utility at least as cold as every row in supply and target level. -/
+theorem covering_ladder_closes_cold (tol : Rat) (htol : 0 ≤ tol) (T H : List Rat) (pre : List ULevel) (uc : ULevel) (limit : Rat)
+    (hcov : ∀ t ∈ T, uc.tt ≤ t ∧ -tol ≤ t - uc.ts)
+    (hlen : T.length = H.length) (hmono : H.Pairwise (· ≤ ·)) (hlastv : H.getLast? = some limit)
+    (hhead : ∃ z, H.head? = some z ∧ z < limit) (h0 : 0 ≤ limit) :
+    limit - tol ≤ (assignLoop tol T H false limit 0 (pre ++ [uc])).sum ∧
+    (assignLoop tol T H false limit 0 (pre ++ [uc])).sum ≤ limit := by
+  have := assignLoop_closes_cold tol htol T H uc limit hcov hlen hmono hlastv hhead pre 0 h0
   simpa using this
 
 /-- the hypotheses are met by the example ladder below (the 260-level covers the segment) -/
